@@ -21,6 +21,24 @@ func init() {
 }
 
 func c20(c *Ctx) {
+	for _, m := range []struct {
+		key, mu string
+		min     int
+		excuse  map[string]string
+	}{
+		{"store", "litefs.Store.mu", 20, map[string]string{
+			"litefs.(*DB).Open -> litefs.(*DB).ApplyLTXNoLock": "Open re-applies the newest LTX file only when one exists; the directory CreateDB has just made (O_EXCL on its database file, name not registered) holds none, and Open's other caller, openDatabase, runs without the store mutex",
+		}},
+		{"checksum-cache", "litefs.DB.chksums.mu", 4, nil},
+		{"guard-sets", "litefs.DB.guardSets.mu", 2, nil},
+		{"shm", "litefs.DB.shmMu", 1, nil},
+		{"change-set-subscriber", "litefs.ChangeSetSubscriber.mu", 2, nil},
+		{"rwmutex", "litefs.RWMutex.mu", 4, nil},
+	} {
+		c.NoReentry("no-hang/"+m.key+"-mutex-not-reentered", m.mu, m.min,
+			"no function that runs with "+m.mu+" held - by itself or by its caller - calls a function that locks it again",
+			"sync.Mutex is not re-entrant: the goroutine blocks for ever with the mutex held, and from then on every request that touches the store (/info, /import, /tx, /stream, /halt ...) hangs: one request takes the node out of service", m.excuse)
+	}
 	{
 		// an event subscriber's channel is closed exactly once: only while the subscriber is still registered, and it is unregistered in the same step
 		p := c.P
